@@ -15,7 +15,7 @@
 (*    form, operands untouched, unnamed registers untouched).              *)
 (* The trace is accepted iff TLC consumes every event and bad = {}.        *)
 (***************************************************************************)
-EXTENDS DecParse, Json, TLC, IOUtils
+EXTENDS DecAlgoPost, Json, TLC, IOUtils
 
 DW == 19                                  \* digits per word of the real library (64-bit build)
 DB == Pow10(DW)
@@ -394,6 +394,53 @@ TGobStream ==
      IN StepX(w, {"GobStream"}, IF Ev.out = "ok" /\ Ev.ret.err THEN {<<l, "C17", "rejected">>} ELSE {})
 
 (***************************************************************************)
+(* Below the API, through the verif hooks: natural-number algorithms (C06) *)
+(* and word kernels (C07).                                                 *)
+(***************************************************************************)
+WordsIn(ss) == [i \in 1..Len(ss) |-> FromStr(ss[i])]
+NatObserve(ok, pid, tags) ==
+  /\ l' = l + 1 /\ vres' = vres /\ ctxs' = ctxs /\ regs' = regs /\ dgs' = dgs
+  /\ bad' = bad \cup Tag(IF Ev.out # "ok" THEN {<<l, pid, "panic">>, <<l, "C04", "panic">>} ELSE IF ok THEN {} ELSE {<<l, pid, "ret">>}, "")
+  /\ cov' = Bump({Ev.op} \cup tags)
+LenClass(n) == IF n <= 1 THEN ToString(n) ELSE IF n < 10 THEN "2-9" ELSE IF n < 100 THEN "10-99" ELSE ">=100"
+TNMul ==
+  /\ l <= Len(T) /\ Ev.op = "N.mul"
+  /\ LET x == WordsIn(Ev.x)  y == WordsIn(Ev.y)
+     IN NatObserve(MulPost(x, y, WordsIn(Ev.ret.z)), "C06",
+                   {"N.mul:" \o MulRegime(NNormIn(x), NNormIn(y), Ev.ret.thr[1]), "N.mul:len" \o LenClass(Len(y))})
+TNSqr ==
+  /\ l <= Len(T) /\ Ev.op = "N.sqr"
+  /\ LET x == WordsIn(Ev.x)
+     IN NatObserve(SqrPost(x, WordsIn(Ev.ret.z)), "C06", {"N.sqr:" \o SqrRegime(NNormIn(x), Ev.ret.thr[2], Ev.ret.thr[3])})
+TNDiv ==
+  /\ l <= Len(T) /\ Ev.op = "N.div"
+  /\ LET u == WordsIn(Ev.u)  v == WordsIn(Ev.v)
+     IN NatObserve(DivPost(u, v, WordsIn(Ev.ret.q), WordsIn(Ev.ret.r)), "C06",
+                   {"N.div:" \o DivRegime(u, v, Ev.ret.rec), "N.div:" \o (IF Len(Ev.ret.r) = 0 THEN "exact" ELSE "remainder")})
+
+(* kernels: the build's implementation ("asm") and the portable one ("go") must both satisfy the mathematical *)
+(* post-condition, hence agree with each other                                                               *)
+KArgs == [zo |-> Ev.zo, xo |-> Ev.xo, yo |-> IF "yo" \in DOMAIN Ev THEN Ev.yo ELSE 0, n |-> Ev.n,
+          y |-> IF "y" \in DOMAIN Ev THEN FromStr(Ev.y) ELSE Zero, r |-> IF "r" \in DOMAIN Ev THEN FromStr(Ev.r) ELSE Zero,
+          w |-> IF "w" \in DOMAIN Ev THEN FromStr(Ev.w) ELSE Zero, s |-> IF "s" \in DOMAIN Ev THEN Ev.s ELSE 0]
+KName == Ev.k
+TKernel ==
+  /\ l <= Len(T) /\ Ev.op = "K"
+  /\ LET pre == WordsIn(Ev.mem)
+         a == KArgs
+         scalar == KName \in {"mul10WW", "div10W", "div10WW", "mulAdd10WWW"}
+         okOf(res) == IF scalar THEN ScalarPost(KName, FromStr(res.c), FromStr(res.c2), a, Pow2(64))
+                      ELSE KernelPost(KName, pre, WordsIn(res.mem), FromStr(res.c), a)
+     IN /\ l' = l + 1 /\ vres' = vres /\ ctxs' = ctxs /\ regs' = regs /\ dgs' = dgs
+        /\ bad' = bad \cup Tag(IF Ev.out # "ok" THEN {<<l, "C07", "panic">>}
+                                ELSE (IF okOf(Ev.ret.asm) THEN {} ELSE {<<l, "C07", "asm">>})
+                                     \cup (IF okOf(Ev.ret.go) THEN {} ELSE {<<l, "C07", "go">>})
+                                     \cup (IF Ev.ret.asm = Ev.ret.go THEN {} ELSE {<<l, "C07", "asm-vs-go">>}), "")
+        /\ cov' = Bump({"K:" \o KName, "K:" \o KName \o ":" \o (IF scalar THEN "scalar" ELSE IF Ev.zo = Ev.xo THEN "inplace" ELSE "disjoint"),
+                         "K:" \o KName \o ":n" \o LenClass(Ev.n)})
+NatNext == TNMul \/ TNSqr \/ TNDiv \/ TKernel
+
+(***************************************************************************)
 (* Text output (C13, C11).  When the step carries "f64" the executor also  *)
 (* logged what strconv / fmt print for the float64 of the same value       *)
 (* (ret.ref): a second implementation of the same layout specification.    *)
@@ -624,7 +671,7 @@ CoreNext == TReset \/ TPanic \/ TLoad \/ TAdd \/ TSub \/ TMul \/ TQuo \/ TFMA \/
 TraceInit == l = 1 /\ regs = <<>> /\ dgs = <<>> /\ bad = {} /\ cov = <<>> /\ vres = <<>> /\ ctxs = <<>>
 TextNext == TText \/ TAppend \/ TString \/ TMarshalText \/ TMarshalJSON \/ TFormat \/ TParse \/ TSetString \/ TUnmarshalText
             \/ TUnmarshalJSON \/ TParseDecimal \/ TScan \/ TTextParse
-TraceNext == CoreNext \/ CtxNext \/ TextNext
+TraceNext == CoreNext \/ CtxNext \/ TextNext \/ NatNext
 TraceSpec == TraceInit /\ [][TraceNext]_vars
 
 (* the verdict, printed once when the whole trace has been consumed *)
